@@ -16,26 +16,30 @@ parser is run on the same bytes (harness c11, raw mode) so that the report shows
 """
 import collections, os
 import vlib
-from props import c05, c05spec
+from props import c05, c05spec, c06switch
 
-KINDS = {"superblock": 1, "msg-dataspace": 5, "msg-datatype": 6, "msg-layout": 7, "msg-attribute": 9, "msg-attrinfo": 10, "msg-link": 11, "msg-symtab": 12}
-GO_KIND = {"superblock": "superblock", "msg-dataspace": "dataspace", "msg-datatype": "datatype", "msg-layout": "layout",
+KINDS = {"superblock": 1, "msg-dataspace": 5, "msg-datatype": 6, "msg-layout": 7, "msg-pipeline": 8, "msg-attribute": 9, "msg-attrinfo": 10, "msg-link": 11, "msg-symtab": 12}
+GO_KIND = {"msg-pipeline": "filterpipe", "superblock": "superblock", "msg-dataspace": "dataspace", "msg-datatype": "datatype", "msg-layout": "layout",
            "msg-attribute": "attribute", "msg-attrinfo": "attrinfo", "msg-link": "link", "msg-symtab": "symtab"}
 HEADER = "From HV Require Import Base.Prelude Base.Outcome Base.Bytes Model.ReaderSpecTie.\n"
 
 
-def refuted_class(s):
-    """the theorem that refutes agreement for this structure's class, or None"""
+def refuted_class(s, sw):
+    """the theorem that refutes agreement for this structure's class under the variants [sw] of the three repair switches
+    that the source tree under test implements, or None"""
     b, k, ctx = s["bytes"], s["kind"], s["ctx"]
     if k == "superblock" and len(b) > 10:
-        if b[8] in (2, 3) and not (b[9] == 8 and b[10] == 8):
-            return "C06_reader_superblock_v2_sizes_refuted / _v2_lensize_refuted (size of offsets / lengths not both 8)"
-        if b[8] == 0 and len(b) > 14 and b[13] != 8:
-            return "C06_reader_superblock_v0_offsets_refuted (version 0, size of offsets not 8)"
+        if not sw["superblock"]:
+            if b[8] in (2, 3) and not (b[9] == 8 and b[10] == 8):
+                return "C06_reader_superblock_v2_sizes_refuted / _v2_lensize_refuted (unrepaired reader; size of offsets / lengths not both 8)"
+            if b[8] == 0 and len(b) > 14 and b[13] != 8:
+                return "C06_reader_superblock_v0_offsets_refuted (unrepaired reader; version 0, size of offsets not 8)"
         if b[8] == 0 and any(b[24:32]):
             return "C06_reader_superblock_v0_base_refuted (version 0, base address not 0)"
-    if k == "msg-attribute" and len(b) > 0 and b[0] == 2:
-        return "C06_reader_attribute_v2_padding_refuted (attribute message version 2)"
+    if k == "msg-attribute" and len(b) > 0 and b[0] == 2 and not sw["attribute"]:
+        return "C06_reader_attribute_v2_padding_refuted (unrepaired reader; attribute message version 2)"
+    if k == "msg-pipeline" and len(b) > 0 and b[0] == 2 and not sw["pipeline"]:
+        return "C06_reader_pipeline_v2_userfilter_refuted (unrepaired reader; version 2 message with a user-defined filter)"
     if k == "msg-dataspace" and len(b) >= 4 and b[0] == 2 and b[1] == 0 and b[3] == 1:
         return "C06_reader_dataspace_simple_rank0_refuted (version 2, kind simple, rank 0)"
     if k in ("msg-dataspace", "msg-attribute") and ctx and ctx[0] not in (4, 8):
@@ -43,7 +47,7 @@ def refuted_class(s):
     return None
 
 
-def coq_codes(structs, workers=8):
+def coq_codes(structs, sw, workers=8):
     import concurrent.futures as cf
     if not structs:
         return []
@@ -55,7 +59,8 @@ def coq_codes(structs, workers=8):
             ch = sub[j:j + 1500]
             v.append("Definition cs_%d : list rs_case := [%s].\n" % (j, ";\n".join(
                 '(%d, %s, "%s"%%string)' % (KINDS[s["kind"]], vlib.cNlist(s["ctx"]), s["bytes"].hex()) for s in ch)))
-            v.append("Definition r_%d := Eval vm_compute in map rs_case_code cs_%d.\nPrint r_%d.\n" % (j, j, j))
+            v.append("Definition r_%d := Eval vm_compute in map (rs_case_code_gen %s %s %s) cs_%d.\nPrint r_%d.\n" % (
+                j, c06switch.cb(sw["superblock"]), c06switch.cb(sw["attribute"]), c06switch.cb(sw["pipeline"]), j, j))
         out = vlib.coq_eval("".join(v), "c06reader_%d" % k)
         got = []
         for j in range(0, len(sub), 1500):
@@ -75,6 +80,7 @@ def coq_codes(structs, workers=8):
 
 def tie(ctx):
     quick = ctx.tier == "quick"
+    sw = c06switch.all_switches()
     refs, files = c05.reference_structs(1000)
     mine = [s for s in refs if s["kind"] in KINDS and len(s["bytes"]) <= 4000]
     ctx.rng.shuffle(mine)
@@ -86,7 +92,7 @@ def tie(ctx):
         seen.add(k)
     budget = 1500 if quick else 40000
     picked = (first + rest)[:budget]
-    codes = coq_codes(picked)
+    codes = coq_codes(picked, sw)
     hist = collections.Counter()
     viol, known = [], collections.Counter()
     bad = []
@@ -106,7 +112,7 @@ def tie(ctx):
         except Exception as e:      # the report is still made, without the implementation's answer
             go = {"error": str(e)[:300]}
     for s, c in bad:
-        why = refuted_class(s)
+        why = refuted_class(s, sw)
         if why:
             known[why] += 1
             continue
@@ -117,7 +123,7 @@ def tie(ctx):
             go=go.get(id(s)), code=c,
             replay_cmd="echo '{\"kind\":\"%s\",\"raw\":\"<bytes>\"}' | verifharness c11" % GO_KIND[s["kind"]]))
     known_lines = ["reader-vs-specification: %d structure(s) of reference files in a class refuted by %s" % (n, w) for w, n in sorted(known.items())]
-    cov = dict(reference_files=len(files), structures_available=len(mine), structures_evaluated=len(picked),
+    cov = dict(source_switches=sw, reference_files=len(files), structures_available=len(mine), structures_evaluated=len(picked),
                classes=len(seen), codes=dict(sorted(hist.items())),
                accepted_and_agreeing=sum(1 for c in codes if c == 2), accepted_reader_error=sum(1 for c in codes if c == 1),
                strict_rejects=sum(1 for c in codes if c == 0), disagreeing=len(bad),
